@@ -42,14 +42,17 @@ RULE = ctrl_check.RULE + (" || real-cluster runs (10 quick / 48 thorough, three 
                           "sequences/transfers/fetches/purges per run are printed; each run counts as a non-trivial case")
 ASSUMPTIONS = list(ctrl_check.ASSUMPTIONS) + [
     "real-cluster runs: wrong or missing values and the trace verdicts (wrong worker, body entered twice, GPU device missing/shared, purge not applied) always count. "
-    "A run that raises, or whose controller.impl.run does not return within 25 s of its start, is run again at once: the verdict is reported when it shows again, and "
-    "ALSO when it does not show again but the job had started in the failing run (cluster past the start-up gate, a task body entered) -- then with "
-    "\"reproduced\": false and both runs in the replay. It is dropped (and counted as real:flaky-startup-*) only when no task body had been entered. A cluster "
-    "that is not up within 20 s (a forked helper can deadlock in fork-with-threads under heavy machine load) is started again, up to 3 times; a cluster that "
-    "never comes up is reported as real-cluster-hang where=start-up",
+    "A run that raises, or whose controller.impl.run does not return within 25 s of its start, is run again -- once the 1-minute load of the machine is below "
+    "its number of cores (waiting at most 180 s) and with three times the patience (75 s: a starved process is slow, a deadlocked one stays deadlocked): the "
+    "verdict is reported when it shows again, and ALSO when it does not show again but the job had started in the failing run (cluster past the start-up gate, a "
+    "task body entered) -- then with \"reproduced\": false and both runs in the replay; only when the machine was oversubscribed around the first run (load > "
+    "cores) a third run decides, and a verdict seen in the first run alone is dropped and counted (real:hang-under-load-not-reproduced-*). It is dropped (and "
+    "counted as real:flaky-startup-*) when no task body had been entered. A cluster that is not up within 20 s (a forked helper can deadlock in "
+    "fork-with-threads under heavy machine load; 11-13 forked workers need longer on an oversubscribed machine) is started again with 40, 80 and 160 s of "
+    "patience; a cluster that never comes up is reported as real-cluster-hang where=start-up",
     "real-cluster runs: below the executor the code sends local messages (worker <-> executor, ipc) through fresh PUSH sockets with a 1 s linger and no "
     "acknowledgement (comms.callback): a process that is not scheduled for more than a second loses such a message and the job stalls. Machine load of that "
-    "kind is outside C01; the check limits itself to three concurrent clusters",
+    "kind is outside C01; the check limits itself to three concurrent clusters and makes its deciding re-runs on a calmer machine (above)",
 ]
 
 
